@@ -495,6 +495,17 @@ func (inc *incarnation) visible(kind, key string) effect {
 		}
 		if !found {
 			e.Key += " <- caused by " + inc.trigger
+			var sh types.Height
+			if n, _ := fmt.Sscanf(inc.trigger, "start h=%d", &sh); n == 1 {
+				for _, it := range c.model.items {
+					var lh types.Height
+					if n, _ := fmt.Sscanf(it.Key, "start h=%d", &lh); n == 1 && lh > sh {
+						// the record of this height start is in the log, but under a later height
+						e.Kind = "height-start-logged-under-later-height"
+						e.Key += fmt.Sprintf(" (the log holds %q instead)", it.Key)
+					}
+				}
+			}
 			inc.unlogged = append(inc.unlogged, e)
 		}
 	}
